@@ -11,6 +11,7 @@ mod locks;
 mod sched;
 mod raygeom;
 mod session;
+mod shading;
 mod solar;
 mod util;
 mod uvalue;
@@ -69,6 +70,7 @@ fn main() {
         "classify" => classify::main_classify(&args),
         "solar" => solar::main_solar(&args),
         "raygeom" => raygeom::main_raygeom(&args),
+        "shading" => shading::main_shading(&args),
         "jsonfmt" => jsonfmt::main_jsonfmt(&args),
         "bdlparse" => bdlparse::main_bdlparse(&args),
         "faults" => faults::main_faults(&args),
